@@ -22,6 +22,7 @@ EXPLANATION = (
     "timeout = None, timeout = value) from both initial states, and `expired` must equal the reference "
     "predicate after each: this covers state added to the class (caches, extra clocks) that the "
     "per-method comparison cannot see."
+    ' Fifth round: a duration (difference of two clock readings) used as a truth value is a mismatch - it can be exactly 0.0 (timer_model.ZeroableTruth).'
 )
 
 MONO = {"monotonic", "monotonic_ns", "perf_counter", "perf_counter_ns"}
